@@ -132,6 +132,27 @@ func (fx *FnExec) calleeEnv(con *Contract, recv *Val, args []Val, heap, old *Hea
 				env.names[n] = args[i]
 			}
 		}
+		// names the parameters had on the baselined tree (pure renames only, see names.go)
+		if !con.IsIface && len(con.Params) == 0 {
+			if _, bp := renamesFor(con.Key, fx.e.funcsByKey[con.Key]); bp != nil {
+				off := 0
+				if sig.Recv() != nil {
+					off = 1
+					if recv != nil && len(bp) > 0 && bp[0] != "" {
+						if _, clash := env.names[bp[0]]; !clash {
+							env.names[bp[0]] = *recv
+						}
+					}
+				}
+				for i := range args {
+					if off+i < len(bp) && bp[off+i] != "" && bp[off+i] != "_" {
+						if _, clash := env.names[bp[off+i]]; !clash {
+							env.names[bp[off+i]] = args[i]
+						}
+					}
+				}
+			}
+		}
 		// positional names a0, a1...
 		for i := range args {
 			env.names[fmt.Sprintf("arg%d", i)] = args[i]
